@@ -221,6 +221,11 @@ def sha(obj):
 
 def write_replay(prop, payload):
     os.makedirs(REPLAYS, exist_ok=True)
+    payload = dict(payload)
+    payload.setdefault("property", prop)
+    # how to reproduce: the check itself, with the tier and seed of this run
+    payload.setdefault("rerun", dict(tier=os.environ.get("VERIF_TIER_EFFECTIVE", "quick"),
+                                     seed=int(os.environ.get("VERIF_SEED_EFFECTIVE", "1"))))
     path = os.path.join(REPLAYS, "%s-%s.json" % (prop, sha(payload)))
     with open(path, "w") as f:
         json.dump(payload, f, indent=1)
